@@ -20,12 +20,12 @@ var floatPool = []float64{0, 1, -1, 0.5, -0.5, 1.5, 2.5, 3.14, 1e10, -1e10, 1e-1
 
 // ValOpts tunes the value generator.
 type ValOpts struct {
-	NonFinite   bool // allow NaN / ±Inf floats
-	IntegralF   bool // allow floats with integral values (2.0)
-	Links       bool
-	MaxWidth    int
-	NoNull      bool
-	ASCIIOnly   bool
+	NonFinite    bool // allow NaN / ±Inf floats
+	IntegralF    bool // allow floats with integral values (2.0)
+	Links        bool
+	MaxWidth     int
+	NoNull       bool
+	ASCIIOnly    bool
 	KeysAnyOrder bool // do not normalise map key order
 }
 
